@@ -35,6 +35,13 @@ def first_connections(rnd):
     sc("mid-fragmented-binary", [("data", 0, hs + E(2, b"abc", fin=0) + E(0, b"def", fin=0)), ("exc", 0)])
     sc("mid-compression-context", [("data", 0, hsz + E(1, z1, rsv=4) + E(1, z2[:len(z2) // 2], rsv=4, fin=0)), ("eof", 0)], ws_compress=True)
     sc("compression-then-close", [("data", 0, hsz + E(1, z1, rsv=4)), ("data", 0, E(8, b"\x03\xe8")), ("eof", 0)], ws_compress=True, app={3: [("text", b"zip zip zip zip", True)]})
+    # exactly the extension string the next connection will get: a context that took messages both ways; one whose inflater
+    # ended in an error
+    hsp = ref6455.handshake_response(acc, extra=b"Sec-WebSocket-Extensions: permessage-deflate\r\n")
+    pp = ref7692.Peer()
+    sc("compression-same-string-both-ways", [("data", 0, hsp + E(1, pp.compress(b"second connection second connection " * 4), rsv=4)), ("timeout", 5120), ("eof", 0)], ws_compress=True,
+       app={3: [("text", b"ping me ping me ping me", True)]})
+    sc("compression-same-string-inflate-error", [("data", 0, hsp + E(1, pp.compress(b"fine so far " * 6), rsv=4) + E(1, b"\xff\xfe\xfd garbage, not deflate", rsv=4))], ws_compress=True)
     # other negotiated parameters than the next connection will get
     hsn = ref6455.handshake_response(acc, extra=b"Sec-WebSocket-Extensions: permessage-deflate; server_no_context_takeover; client_no_context_takeover; client_max_window_bits=9\r\n")
     pn = ref7692.Peer(15, 9, True, True)
